@@ -479,7 +479,15 @@ class BoundedExecutor:
         # Submit the task to the underlying executor.
         # Pass the current context to ensure child threads persist the
         # parent thread's context.
-        future = ExecutorFuture(self._executor.submit(task, get_context()))
+        try:
+            future = ExecutorFuture(
+                self._executor.submit(task, get_context())
+            )
+        except BaseException:
+            # The task was never handed to the executor, so nothing will
+            # ever invoke the release callback: give the permit back.
+            semaphore.release(task.transfer_id, acquire_token)
+            raise
         # Add the Semaphore.release() callback to the future such that
         # it is invoked once the future completes.
         future.add_done_callback(release_callback)
